@@ -87,6 +87,20 @@ def execute(acc, case):
                 for i in todo:
                     am = N.app_answer(i, app=app_of(i), host="peer0.remote.example", realm="remote.example")
                     am.hbh = hbh_of(i)
+                    # answers come in many shapes: without Result-Code (Experimental-Result only, RFC 6733 7.6), with both,
+                    # with the E flag, without Session-Id or origin - the waiter is matched by Hop-by-Hop alone
+                    shape = rng.choice(["plain", "plain", "experimental-only", "no-result", "error-flag", "no-session-id", "only-marker"])
+                    if shape in ("experimental-only", "no-result"):
+                        am.avps = [a for a in am.avps if a.code != 268]
+                    if shape == "experimental-only":
+                        am.avps.insert(1, N.avp(297, R.encode_avp(N.avp(266, N.u32(10415))) + R.encode_avp(N.avp(298, N.u32(5001)))))
+                    if shape == "error-flag":
+                        am.flags |= 0x20
+                    if shape == "no-session-id":
+                        am.avps = [a for a in am.avps if a.code != 263]
+                    if shape == "only-marker":
+                        am.avps = [a for a in am.avps if a.code == 99990]
+                    acc.counters["answer_shape_%s" % shape] += 1
                     ans = DiameterMessage.load(R.encode(am))[0]
                     answered.append(i)
                     dispatch_threads.append(app.create_message_thread(ans))
